@@ -75,3 +75,17 @@ CHECKS["C16"] = {
         rapid_job("resource", "./verifh/c16", "TestValueEquivalence|TestCollectionEquivalence", 3000, 20000),
     ],
 }
+
+CHECKS["C17"] = {
+    "rule": ("bounded-exhaustive: member counts 0..4 x every success/failure vector x every completion order x 7 strategies x {Execute, direct function}, completion order owned by the "
+             "harness (members gated on channels, next member released only after the previous one's goroutine has gone); plus rapid-drawn groups of up to 8 members with "
+             "cancellation-aware members. Oracle = the documented contract evaluated on (outcomes, order): verdict, returned error = first observed, results at own index, "
+             "One runs nothing after the first success, contexts cancelled exactly once the outcome is decided, no panic, no pkg/group goroutine left. "
+             "non-trivial = >=2 members with mixed outcomes and a non-identity completion order; distinct by (strategy, outcomes, order, flags)"),
+    "all_exhaustive": False,
+    "assumptions": ["completion order is observed through goroutine exit of executeEach's member wrapper (runtime.Stack)", "a member's context is checked at the moment it is released"],
+    "jobs": [
+        enum_job("exhaustive", "./verifh/c17", "TestGroupExhaustive", timeout={Q: 600, T: 1800}),
+        rapid_job("random", "./verifh/c17", "TestGroupRandom", 1500, 8000, shards_t=8),
+    ],
+}
